@@ -44,12 +44,13 @@ type CSchedule struct {
 }
 
 type fakeRT struct {
-	r        *CliRun
-	mu       sync.Mutex
-	health   map[string]bool
-	pingGate *gate
-	callGate *gate
-	closed   int
+	r         *CliRun
+	mu        sync.Mutex
+	health    map[string]bool
+	pingGate  *gate
+	callGate  *gate
+	closed    int
+	closeHold chan struct{} // non-nil: Close blocks until it is closed
 }
 
 type fakeStream struct{}
@@ -131,7 +132,11 @@ func (f *fakeRT) Ping(addr string) error {
 func (f *fakeRT) Close() error {
 	f.mu.Lock()
 	f.closed++
+	hold := f.closeHold
 	f.mu.Unlock()
+	if hold != nil {
+		<-hold // Client.Close is inside Transport.Close, holding the Client's lock
+	}
 	return nil
 }
 
@@ -145,23 +150,31 @@ type ccaller struct {
 
 type CliRun struct {
 	*Run
-	cfg      CliCfg
-	c        *rpc.Client
-	rt       *fakeRT
-	detGate  *gate
-	gidK     sync.Map
-	callers  map[int]*ccaller
-	notes    []string
-	waitMs   int
-	t0       time.Time
-	nupd     int
-	ptrGen   map[interface{}]int // *target -> generation (Update count when first seen)
-	waitSeq  map[int]int         // waiter seq -> caller
-	lastEwma map[interface{}][2]uint64
-	updN     int
-	updPrev  int
-	dirMu    sync.Mutex
-	director string
+	cfg        CliCfg
+	c          *rpc.Client
+	rt         *fakeRT
+	detGate    *gate
+	gidK       sync.Map
+	callers    map[int]*ccaller
+	notes      []string
+	waitMs     int
+	t0         time.Time
+	nupd       int
+	ptrGen     map[interface{}]int // *target -> generation (Update count when first seen)
+	waitSeq    map[int]int         // waiter seq -> caller
+	lastEwma   map[interface{}][2]uint64
+	updN       int
+	updPrev    int
+	dirMu      sync.Mutex
+	director   string
+	overlapped bool        // one Close step of this run has been executed overlapping the calls behind it
+	skipRoute  map[int]int // caller -> Route steps already performed that way
+}
+
+func (r *CliRun) rtClosed() int {
+	r.rt.mu.Lock()
+	defer r.rt.mu.Unlock()
+	return r.rt.closed
 }
 
 func (r *CliRun) addrIdx(a string) int {
@@ -184,7 +197,7 @@ func (r *CliRun) addrIdxHash(h uint64) int {
 var cliCreateMu sync.Mutex
 
 func newCliRunGated(name string, cfg CliCfg) *CliRun {
-	r := &CliRun{Run: newRun(name), cfg: cfg, callers: map[int]*ccaller{}, waitMs: 400, t0: time.Now(),
+	r := &CliRun{Run: newRun(name), cfg: cfg, callers: map[int]*ccaller{}, skipRoute: map[int]int{}, waitMs: 400, t0: time.Now(),
 		ptrGen: map[interface{}]int{}, waitSeq: map[int]int{}, lastEwma: map[interface{}][2]uint64{}}
 	r.Run.onHook = r.bind
 	r.detGate = newGate()
@@ -370,6 +383,19 @@ func errKind(err error) int {
 }
 
 func (r *CliRun) startCall(k int, timeoutSoon bool) {
+	n0 := r.startCallNoWait(k, timeoutSoon)
+	if n0 < 0 {
+		return
+	}
+	r.await(fmt.Sprintf("routing of caller %d", k), r.waitMs, func() bool {
+		return r.finished(k) || r.evCount(func(e *Ev) bool {
+			return e.C == k && (e.Ev == "k.sched" || e.Ev == "k.wait" || e.Ev == "k.route.closed" || e.Ev == "k.route.director" || e.Ev == "k.wait.closed")
+		}) > n0
+	})
+}
+
+// startCallNoWait starts the call of caller k and returns without waiting for its routing decision (-1: not started)
+func (r *CliRun) startCallNoWait(k int, timeoutSoon bool) int {
 	c := r.callers[k]
 	if c == nil {
 		c = &ccaller{k: k}
@@ -377,7 +403,7 @@ func (r *CliRun) startCall(k int, timeoutSoon bool) {
 	}
 	if c.running && !r.finished(k) {
 		r.note("caller %d still busy", k)
-		return
+		return -1
 	}
 	c.running = true
 	c.n++
@@ -426,11 +452,7 @@ func (r *CliRun) startCall(k int, timeoutSoon bool) {
 		close(c.done)
 	}()
 	<-ready
-	r.await(fmt.Sprintf("routing of caller %d", k), r.waitMs, func() bool {
-		return r.finished(k) || r.evCount(func(e *Ev) bool {
-			return e.C == k && (e.Ev == "k.sched" || e.Ev == "k.wait" || e.Ev == "k.route.closed" || e.Ev == "k.route.director" || e.Ev == "k.wait.closed")
-		}) > n0
-	})
+	return n0
 }
 
 func (r *CliRun) exec(st CStep, next []CStep) {
@@ -476,6 +498,10 @@ func (r *CliRun) exec(st CStep, next []CStep) {
 			r.note("diverged: no probe of %s in flight", st.Addr)
 		}
 	case "Route":
+		if r.skipRoute[st.K] > 0 { // already started, overlapping the Close step before it
+			r.skipRoute[st.K]--
+			break
+		}
 		// will this caller time out later in the schedule while waiting?
 		soon := false
 		for _, n := range next {
@@ -495,7 +521,50 @@ func (r *CliRun) exec(st CStep, next []CStep) {
 	case "Timeout":
 		r.await("Timeout", 2000, func() bool { return r.finished(st.K) })
 	case "Close":
-		r.c.Close()
+		// Close holds the Client's lock while it closes the Transport. Calls the schedule places right behind Close are
+		// started while Close is still in there: they are linearised after it (they block on the lock), which is the order
+		// the model gives them; each must fail at once with ErrShutdown.
+		var during []CStep
+		for _, n := range next {
+			if n.A != "Route" {
+				break
+			}
+			during = append(during, n)
+		}
+		// (only while a Fallback period is running: then a caller goes straight to the waiter table, whose registration is what
+		// must be ordered with Close by the lock; a caller that still consults the live list may legitimately be served)
+		fbOn := r.evCount(func(e *Ev) bool { return e.Ev == "k.fb" && e.A == 1 }) > r.evCount(func(e *Ev) bool { return e.Ev == "k.fb" && e.A == 0 })
+		if len(during) == 0 || r.overlapped || !fbOn {
+			r.c.Close()
+			break
+		}
+		r.overlapped = true
+		hold := make(chan struct{})
+		r.rt.mu.Lock()
+		r.rt.closeHold = hold
+		r.rt.mu.Unlock()
+		n0 := r.rtClosed()
+		closed := make(chan struct{})
+		go func() { r.c.Close(); close(closed) }()
+		r.await("Close reaching the Transport", r.waitMs, func() bool { return r.rtClosed() > n0 })
+		for _, n := range during {
+			r.startCallNoWait(n.K, false)
+			r.skipRoute[n.K]++
+		}
+		time.Sleep(2 * time.Millisecond) // the callers run into the lock
+		r.rt.mu.Lock()
+		r.rt.closeHold = nil
+		r.rt.mu.Unlock()
+		close(hold)
+		<-closed
+		for _, n := range during {
+			k := n.K
+			r.await(fmt.Sprintf("routing decision of caller %d (started while Close was running)", k), r.waitMs, func() bool {
+				return r.finished(k) || r.evCount(func(e *Ev) bool {
+					return e.C == k && (e.Ev == "k.sched" || e.Ev == "k.wait" || e.Ev == "k.route.closed" || e.Ev == "k.route.director" || e.Ev == "k.wait.closed")
+				}) > 0
+			})
+		}
 	case "CallDone":
 		if r.rt.callGate.arrivedCount(key(st.K)) > 0 {
 			r.rt.callGate.release(key(st.K), 0)
